@@ -6,7 +6,8 @@
      tr e            e._transpose_nonbatch()         as an operator expression
      mm false e X    e._matmul(X)                    X a (batched) matrix, already 2-D (Matmul.forward unsqueezes)
      mm true  e X    e._t_matmul(X)
-     pub_matmul      e.matmul(X) = e @ X             class overrides (Diag family, Identity, Zero, Interpolated)
+     pub_matmul      e.matmul(X) = e @ X             class overrides (Diag family, Identity, Zero: same code as
+                                                     their _matmul; Interpolated: gather / scatter sums)
                                                      or  Matmul.apply -> _matmul
      pub_rmatmul     X @ e   = e.mT.matmul(X.mT).mT  (1-D: e.mT.matmul(X))
      td e            e.to_dense()                    class override or the base-class default
@@ -261,6 +262,21 @@ Definition perm_mm (p X : BT) : BT :=
 Definition transperm_mm (m : nat) (X : BT) : BT :=
   mkBT (bsh X) (m * m) (nc X) (fun I r j => ent X I ((r mod m) * m + r / m)%nat j).
 
+(* interpolation: utils/interpolation.py left_t_interp (scatter-sum, duplicates add) and left_interp (gather-sum),
+   used by InterpolatedLinearOperator.matmul; the _matmul/_t_matmul paths build sparse matrices
+   (make_sparse_from_indices_and_values) and multiply with sparse.bdsmm, modelled as dense products with [dinterp] *)
+Definition interp_scatter (idx val X : BT) (out : nat) : BT :=
+  mkBT (bcast (bsh idx) (bsh X)) out (nc X)
+       (fun I c col => zsum (nr idx) (fun i => zsum (nc idx) (fun a =>
+            if Nat.eqb (Z.to_nat (bget idx I i a)) c then bget val I i a * bget X I i col else 0))).
+Definition interp_gather (idx val R : BT) : BT :=
+  mkBT (bcast (bsh idx) (bsh R)) (nr idx) (nc R)
+       (fun I i col => zsum (nc idx) (fun a => bget val I i a * bget R I (Z.to_nat (bget idx I i a)) col)).
+
+(* right-nested sum of the per-piece products of CatLinearOperator._matmul (cat_dim = -1) *)
+Fixpoint dsum_pieces (l : list BT) : BT :=
+  match l with [] => dzero [] 0 0 | [A] => A | A :: r => dadd A (dsum_pieces r) end.
+
 (* ---- _matmul / _t_matmul --------------------------------------------------------------------- *)
 
 (* classes whose multiplication is NOT yet transcribed are given their specification here (and are
@@ -304,7 +320,24 @@ Fixpoint mm (t : bool) (e : OpExpr) (X : BT) {struct e} : BT :=
   | Permutation p => perm_mm (if t then inv_perm p else p) X
   | TransposePermutation m => transperm_mm m X
   | Kernel x1 x2 sq => if t then dmm (dkernel x2 x1 sq) X else dmm (dkernel x1 x2 sq) X
-  | Mul _ _ | BatchRepeat _ _ | Cat _ _ | Interpolated _ _ _ _ _ => spec_mm t e X
+  | Interpolated b li lv ri rv =>
+      let Wl := fr (dinterp li lv (sz_m (sz b))) in
+      let Wr := fr (dinterp ri rv (sz_n (sz b))) in
+      if t then dmm Wr (fr (mm true b (fr (dmm (dtr Wl) X))))
+      else dmm Wl (fr (mm false b (fr (dmm (dtr Wr) X))))
+  | Cat ops d =>
+      let pieces := (fix go (l : list OpExpr) (off : nat) : list BT :=
+                       match l with
+                       | [] => []
+                       | x :: r => let len := if t then sz_m (sz x) else sz_n (sz x) in
+                                   fr (mm t x (drows X off len)) :: go r (off + len)%nat
+                       end) in
+      match d, t with
+      | CatRows, false | CatCols, true => dcat_rows (map (fun x => fr (mm t x X)) ops)
+      | CatRows, true | CatCols, false => dsum_pieces (pieces ops 0%nat)
+      | CatBatch _, _ => spec_mm t e X
+      end
+  | Mul _ _ | BatchRepeat _ _ => spec_mm t e X
   end.
 
 (* ---- public entry points ---------------------------------------------------------------------- *)
@@ -312,7 +345,13 @@ Fixpoint mm (t : bool) (e : OpExpr) (X : BT) {struct e} : BT :=
 (* e.matmul(X) for a tensor X that is at least 2-D.  Diag / ConstantDiag / Identity / KronDiag override
    matmul with the code that their _matmul calls; Zero.matmul returns a ZeroLinearOperator of the rhs's
    batch shape (densified by the observer); everything else: shape check, Matmul.apply -> _matmul. *)
-Definition pub_matmul (e : OpExpr) (X : BT) : BT := mm false e X.
+Fixpoint pub_matmul (e : OpExpr) (X : BT) : BT :=
+  match e with
+  | Interpolated b li lv ri rv =>
+      (* InterpolatedLinearOperator.matmul: left_interp(li, lv, base.matmul(left_t_interp(ri, rv, X, base.size(-1)))) *)
+      interp_gather li lv (fr (pub_matmul b (fr (interp_scatter ri rv X (sz_n (sz b))))))
+  | _ => mm false e X
+  end.
 
 (* 1-D rhs: Matmul.forward does unsqueeze(-1) / squeeze(-1) around _matmul; a vector is represented by its
    n x 1 matrix and the flag travels outside the model (Check.v compares the squeezed shape). *)
